@@ -98,8 +98,16 @@ def run_bins(chk, n, tagname):
         b = tuple(float(x) for x in gen_bin(g))
         drv.ask('kbin %s' % ' '.join(str(f2b(x)) for x in b))
         jobs.append(b)
-    replies = drv.run()
-    for b, rep in zip(jobs, replies):
+        # the definitions the translator regenerates from the source (T-tie), on the same bin
+        I_, Q_, U_, mu_, W2_ = (str(f2b(x)) for x in b)
+        drv.ask('gen calculate_stokes_errors 5 %s %s %s %s %s 0' % (I_, Q_, U_, mu_, W2_))
+        drv.ask('gen calculate_polarization 5 %s %s %s %s %s 1 1' % (I_, Q_, U_, mu_, W2_))
+        drv.ask('gen calculate_mdp99 3 %s %s %s 1 1' % (mu_, I_, W2_))
+        drv.ask('gen calculate_n_eff 3 %s %s %s 0' % (str(f2b(max(b[0], 1.))), I_, W2_))
+    allrep = drv.run()
+    replies = allrep[0::5]
+    genrep = [allrep[5 * i + 1:5 * i + 5] for i in range(len(jobs))]
+    for b, rep, grep_ in zip(jobs, replies, genrep):
         I, Q, U, mu, W2 = b
         nontriv = I > 1 and (Q != 0 or U != 0)
         chk.case(dict(op='bin', I=I, Q=Q, U=U, mu=mu, W2=W2), nontrivial=nontriv)
@@ -113,6 +121,15 @@ def run_bins(chk, n, tagname):
         if bad:
             chk.fail('impl', 'bin I=%r Q=%r U=%r mu=%r W2=%r: %s (outputs %s)' % (I, Q, U, mu, W2, bad, impl), dict(oracle='bin', args=b, violated=bad))
             continue
+        if any(r == 'bad-op' for r in grep_):
+            chk.fail('correspondence', 'driver rejected a generated Kislat function (signature changed?)', dict(op='gen-kislat', args=b))
+        else:
+            gvals = [b2f(x) for x in grep_[0].split()] + [b2f(x) for x in grep_[1].split()] + [b2f(grep_[2].split()[0]), b2f(grep_[3].split()[0])]
+            for k, (x, y) in enumerate(zip(gvals, impl)):
+                if not close(x, y, 1e-11, 1e-13):
+                    chk.fail('correspondence', 'generated definition, output #%d: Lean %r vs implementation %r on I=%r Q=%r U=%r mu=%r W2=%r' % (k, x, y, I, Q, U, mu, W2),
+                             dict(op='gen-kislat', args=b, index=k, model=x, impl=y))
+                    break
         model = [b2f(x) for x in rep.split()]
         for k, (x, y) in enumerate(zip(model, impl)):
             if not close(x, y, 1e-11, 1e-13):
@@ -300,7 +317,7 @@ def main(chk):
                 'acceptance correction on/off) — all columns compared with the Lean model run on Float; (c) real xpbin PCUBE files (DU, weights, acceptcorr, MC energy; an empty bin) '
                 'against the published formulae written independently with the response files named in the file; (d) the weight-scheme guard. non-trivial = I > 1 with a non-zero Stokes vector / ≥ 3 events')
     chk.assumptions = TRUSTED
-    chk.lean(['IxpeVerif.Props.C02'])
+    chk.lean(['IxpeVerif.Props.C02'], ['calculate_polarization', 'calculate_stokes_errors', 'calculate_mdp99', 'calculate_n_eff'])
     run_bins(chk, 600 if chk.tier == 'quick' else 20000, 'C02-bins')
     run_events(chk, 40 if chk.tier == 'quick' else 800, 'C02-events')
     run_files(chk, 'C02-files')
